@@ -109,6 +109,19 @@ def run_case(case):
         phases.append({'cfg': mk_cfg(['a@example.org'], 'ecdsa_p256'), 'before': forget_all, 'stop': some_failures, 'timeout': 60, 'workers': case['workers'],
                        'plan': {'default': dict(ca_cfg, lifetimes_s=[LONG]),
                                 'faults': [{'kind': 'newAccount', 'action': 'acme_error', 'type': case.get('refusal', 'unauthorized'), 'status': 403, 'id': 'registration-refused'}]}})
+    elif case['variant'] == 'nonce-storm':
+        # every try of one request of one certificate is answered badNonce (with a fresh nonce each time): that attempt ends in
+        # failure, the siblings sharing its account and endpoint get through
+        def all_reported(hooks, log):
+            po = {}
+            for h in hooks:
+                if C.hook_event(h) == 'post-operation':
+                    po[h.get('cert')] = po.get(h.get('cert'), 0) + 1
+            return all(po.get(c['name'], 0) >= 1 for c in certs) or len(log) > STORM
+        phases.append({'cfg': mk_cfg(['a@example.org'], 'ecdsa_p256'), 'before': rm_certs, 'stop': all_reported, 'timeout': 90, 'workers': case['workers'],
+                       'plan': {'default': dict(ca_cfg, lifetimes_s=[LONG]),
+                                'faults': [{'kind': case['storm_kind'], 'cert': 'dns:x%d-0.example.org' % case['i'], 'action': 'acme_error', 'type': case.get('storm_type', 'badNonce'),
+                                            'status': 400, 'tx_from': 0, 'id': 'nonce-storm'}]}})
     elif case['variant'] == 'contacts':
         phases.append({'cfg': mk_cfg(['b@example.org', 'c@example.org'], 'ecdsa_p256'), 'before': rm_certs, 'stop': all_done(1), 'timeout': 120, 'workers': case['workers'],
                        'plan': {'default': dict(ca_cfg, lifetimes_s=[LONG])}})
@@ -124,6 +137,17 @@ def run_case(case):
             hooks, log = S.phase_slice(run, pi)
             if ph['rc'] is not None:
                 pb.append(('daemon-died', 'phase %d: the daemon ended by itself (status %s): %s' % (pi, ph['rc'], ph['stderr'][-200:])))
+            if case['variant'] == 'nonce-storm' and pi == 1:
+                if ph['timed_out'] or len(log) > STORM:
+                    po = {}
+                    for h in hooks:
+                        if C.hook_event(h) == 'post-operation':
+                            po[h.get('cert')] = po.get(h.get('cert'), 0) + 1
+                    stuck = [c['name'] for c in certs if po.get(c['name'], 0) < 1]
+                    n_err = len([r for r in log if (r.get('fault') or {}).get('id') == 'nonce-storm' or r.get('fault') == 'nonce-storm'])
+                    pb.append(('not-terminated', 'phase 1 (every try of the %s request of one certificate answered %s): %d requests in %.0f s and the attempts of %s have not ended' % (
+                        case['storm_kind'], case.get('storm_type', 'badNonce'), len(log), ph['wall'], stuck)))
+                continue
             if case['variant'] == 'forget-refused' and pi == 1:
                 if ph['timed_out'] or len(log) > STORM:
                     po = {}
@@ -284,6 +308,14 @@ def gen(tier, r):
                       'workers': [1, 2, 4, 16][j % 4], 'max_delay': r.choice([0, 10, 30]), 'hook_hold': r.choice([0, 2, 10]),
                       'variant': 'forget-twice', 'rounds': 2, 'nonce_on_get': bool(j % 2), 'forgets': r.randint(2, 6),
                       'spike': [r.choice([10, 20, 35]), 150, r.choice([400, 800])]})
+    # one request of one certificate answered with the same recoverable error at every try, siblings on the same account and endpoint
+    kinds = ['newOrder', 'finalize', 'authz', 'challenge', 'authzPoll', 'orderPoll', 'cert']
+    for j in range(4 if tier == 'quick' else 14):
+        i = len(cases)
+        nn = r.randint(2, 4)
+        cases.append({'i': i, 'n': nn, 'n_accs': 1, 'n_cas': 1, 'acc_of': [0] * nn, 'ca_of': [0] * nn, 'workers': [4, 1, 16, 2][j % 4], 'max_delay': r.choice([0, 10]),
+                      'hook_hold': r.choice([0, 5]), 'variant': 'nonce-storm', 'rounds': 1, 'nonce_on_get': bool(j % 2), 'storm_kind': kinds[j % len(kinds)],
+                      'storm_type': 'badNonce' if j % 4 != 3 else 'serverInternal'})
     return cases
 
 
@@ -323,7 +355,7 @@ def run(tier):
     chk.notes['sharing_patterns'] = len(patterns)
     chk.rule = ('2-8 certificates over 1-3 accounts and 1-3 endpoints (random surjective sharing maps), two rounds of renewals all due at once, '
                 'per-response delays 0-50 ms, hook delays, TOKIO_WORKER_THREADS in {1,2,4,16}; variants: first registration only, CA forgets every '
-                'account, accounts forgotten again while orders arrive, contacts changed, key type changed, first account save failing, externally bound accounts across a restart, bindings removed from the configuration, forgotten accounts whose re-creation is refused; distinct = distinct per-CA sequences of (certificate, request kind) observed')
+                'account, accounts forgotten again while orders arrive, contacts changed, key type changed, first account save failing, externally bound accounts across a restart, bindings removed from the configuration, forgotten accounts whose re-creation is refused, one request of one certificate answered badNonce at every try; distinct = distinct per-CA sequences of (certificate, request kind) observed')
     chk.assumptions = ['acmed polls all renewals on one thread: interleavings arise at await points and are moved by the injected delays',
                        'deadlock = renewals not ended within 120-150 s while a round normally takes a few seconds']
     code = chk.finish()
